@@ -15,6 +15,7 @@ Local variable names are irrelevant (matched positionally / by role); comments a
 from __future__ import annotations
 
 import ast
+import re
 from typing import Any
 
 from harness.common import TranslateError, ast_digest, src_text
@@ -397,8 +398,165 @@ def _engine_db() -> dict:
     if set(digests) != {'get_ent', '_parse_block', 'get_fgd'}:
         raise TranslateError('EngineDB.get_ent/_parse_block/get_fgd not found')
     lazy = _lazy_db(edb)
-    return dict(lazy=lazy, vt_members=vt_members, vt_order=vt_order, et_members=et_members, ft_members=ft_members, ft_order=ft_order,
+    layouts = _record_layouts(tree)
+    kvw = layouts['kv_serialise']
+    special = {}
+    for i, ev in enumerate(kvw[:-1]):
+        m = re.fullmatch(r'if\(_\.type is ValueTypes\.(\w+)\)\{', ev)
+        if m:
+            special['choices' if kvw[i + 1] == 'raise' else 'list'] = vt_alias.get(m.group(1), m.group(1))
+    if set(special) != {'list', 'choices'}:
+        raise TranslateError(f'kv_serialise: the SPAWNFLAGS / CHOICES branches were not recognised: {kvw}')
+    return dict(lazy=lazy, layouts=layouts, special_types=special, vt_members=vt_members, vt_order=vt_order, et_members=et_members, ft_members=ft_members, ft_order=ft_order,
                 ef_members=ef_members, structs=structs, consts=consts, bits=bits, digests=digests)
+
+
+# ------------------------------------------------------------------------------------------ record layouts
+class _Skeleton:
+    """The I/O skeleton of one (un)serialiser: the primitive reads/writes in program order with the loops and
+    branches that contain them.  Local variable and parameter names do not appear (rendered as `_`, or as `#k` when the
+    variable holds the k-th value read so far / the k-th header field); attribute names, module-level names and
+    literals do.  Anything that touches the file in a way not listed here fails closed."""
+
+    def __init__(self, fn: ast.FunctionDef, file_arg: str, dict_arg: str) -> None:
+        self.fn, self.file, self.dic = fn, file_arg, dict_arg
+        self.locals = {a.arg for a in fn.args.args} | {n.id for n in ast.walk(fn) if isinstance(n, ast.Name) and isinstance(n.ctx, ast.Store)}
+        self.bound: dict[str, str] = {}     # local name -> '#k'
+        self.nread = 0
+        self.out: list[str] = []
+
+    # -- rendering of tests / iterables
+    def show(self, node: ast.AST) -> str:
+        bound, loc = self.bound, self.locals
+
+        class R(ast.NodeTransformer):
+            def visit_Name(self, n: ast.Name) -> ast.AST:   # noqa: N802
+                if n.id in bound:
+                    return ast.Name(id=bound[n.id].replace('#', 'R'), ctx=n.ctx)
+                return ast.Name(id='_', ctx=n.ctx) if n.id in loc else n
+        import copy
+        return ast.unparse(R().visit(copy.deepcopy(node))).replace('R', '#') if False else ast.unparse(R().visit(copy.deepcopy(node)))
+
+    def touches_file(self, node: ast.AST) -> bool:
+        return any(isinstance(n, ast.Name) and n.id in (self.file, self.dic) for n in ast.walk(node))
+
+    # -- one primitive expression
+    def prim_write(self, call: ast.Call) -> str:
+        """file.write(ARG)"""
+        (arg,) = call.args
+        if isinstance(arg, ast.Call) and isinstance(arg.func, ast.Name) and arg.func.id == self.dic and len(arg.args) == 1:
+            return 'str'
+        if isinstance(arg, ast.Call) and _is(arg.func, '_fmt_8bit.pack') and len(arg.args) == 1:
+            return 'u8'
+        if isinstance(arg, ast.Call) and _is(arg.func, '_fmt_ent_header.pack'):
+            return 'hdr:' + ','.join(self.show(a) for a in arg.args)
+        raise TranslateError(f'{self.fn.name}: write of {ast.unparse(arg)[:60]} not recognised (line {call.lineno})')
+
+    def events_of_expr(self, node: ast.AST) -> list[str]:
+        """Primitive events of one expression, in evaluation order (arguments before the call)."""
+        ev: list[str] = []
+        for ch in ast.iter_child_nodes(node):
+            if not (isinstance(node, ast.Call) and ch is node.func):
+                ev += self.events_of_expr(ch)
+        if isinstance(node, ast.Call):
+            f = node.func
+            if isinstance(f, ast.Attribute) and isinstance(f.value, ast.Name) and f.value.id == self.file:
+                if f.attr == 'write':
+                    inner = self.prim_write(node)
+                    return [e for e in ev if e != 'str'] + [inner] if inner == 'str' else ev + [inner]
+                if f.attr == 'read':
+                    return ev + ['read:' + self.show(node.args[0])]
+                raise TranslateError(f'{self.fn.name}: file.{f.attr} not recognised')
+            if isinstance(f, ast.Name) and f.id == self.dic:
+                return ev + ['str']
+            if _is(f, 'BinStrDict.write_tags') or _is(f, 'BinStrDict.read_tags'):
+                return ev + ['tags']
+            if isinstance(f, ast.Name) and f.id in ('kv_serialise', 'kv_unserialise'):
+                return ev + ['kv']
+            if isinstance(f, ast.Name) and f.id in ('iodef_serialise', 'iodef_unserialise'):
+                return ev + ['io']
+            if any(isinstance(a, ast.Name) and a.id in (self.file, self.dic) for a in node.args) and not (
+                    _is(f, '_fmt_8bit.pack') or _is(f, '_fmt_ent_header.pack') or _is(f, '_fmt_ent_header.unpack')):
+                raise TranslateError(f'{self.fn.name}: the file is passed to {ast.unparse(f)} (line {node.lineno})')
+        return ev
+
+    def stmt(self, st: ast.stmt) -> list[str]:
+        if isinstance(st, (ast.Assign, ast.AnnAssign, ast.AugAssign, ast.Expr, ast.Return, ast.Assert)):
+            val = getattr(st, 'value', None) if not isinstance(st, ast.Assert) else None
+            ev = self.events_of_expr(val) if val is not None else []
+            out: list[str] = []
+            for e in ev:
+                if e.startswith('read:'):
+                    what = e[5:]
+                    if what == '1':
+                        out.append('u8')
+                    elif what == '_fmt_ent_header.size':
+                        out.append('hdr')
+                    else:
+                        raise TranslateError(f'{self.fn.name}: file.read({what}) not recognised')
+                else:
+                    out.append(e)
+            # bind the targets of a read to #k
+            if isinstance(st, ast.Assign) and out and out[-1] in ('u8', 'str', 'hdr') and len(out) == 1:
+                tgt = st.targets[0]
+                names = [tgt.id] if isinstance(tgt, ast.Name) else (
+                    [e.id for e in tgt.elts if isinstance(e, ast.Name)] if isinstance(tgt, (ast.List, ast.Tuple)) else [])
+                if out[0] == 'hdr':
+                    for k, nm in enumerate(names):
+                        self.bound[nm] = f'h{k}'
+                    out = [f'hdr{len(names)}']
+                else:
+                    for nm in names:
+                        self.bound[nm] = f'r{self.nread}'
+                    self.nread += 1
+            elif any(e in ('u8', 'str') for e in out):
+                self.nread += sum(1 for e in out if e in ('u8', 'str'))
+            if isinstance(st, ast.Return) and self.depth:
+                out.append('return')
+            return out
+        if isinstance(st, ast.If):
+            self.depth += 1
+            body = [e for x in st.body for e in self.stmt(x)]
+            orelse = [e for x in st.orelse for e in self.stmt(x)]
+            self.depth -= 1
+            if not any(e != 'return' for e in body + orelse):
+                return []
+            return [f'if({self.show(st.test)}){{'] + body + (['}else{'] + orelse if orelse else []) + ['}']
+        if isinstance(st, (ast.For, ast.While)):
+            self.depth += 1
+            body = [e for x in st.body for e in self.stmt(x)]
+            self.depth -= 1
+            if st.orelse:
+                raise TranslateError(f'{self.fn.name}: loop with else')
+            if not any(e != 'return' for e in body):
+                return []
+            head = self.show(st.iter) if isinstance(st, ast.For) else self.show(st.test)
+            return [f'loop({head}){{'] + body + ['}']
+        if isinstance(st, ast.Raise):
+            return ['raise']
+        if isinstance(st, (ast.Continue, ast.Pass, ast.Break)):
+            return []
+        if isinstance(st, (ast.With, ast.Try, ast.FunctionDef, ast.Match if hasattr(ast, 'Match') else ast.With)):
+            raise TranslateError(f'{self.fn.name}: {type(st).__name__} statement not supported')
+        if self.touches_file(st):
+            raise TranslateError(f'{self.fn.name}: statement not recognised: {ast.unparse(st)[:80]}')
+        return []
+
+    def run(self) -> list[str]:
+        self.depth = 0
+        return [e for st in _body(self.fn) for e in self.stmt(st)]
+
+
+def _record_layouts(tree: ast.Module) -> dict[str, list[str]]:
+    out = {}
+    for nm, (fi, di) in {'kv_serialise': (1, 2), 'kv_unserialise': (0, 1), 'iodef_serialise': (1, 2), 'iodef_unserialise': (0, 1),
+                         'ent_serialise': (1, 2), 'ent_unserialise': (0, 2)}.items():
+        fn = _fn(tree, nm)
+        args = [a.arg for a in fn.args.args]
+        if len(args) != 3 and not (nm.endswith('unserialise') and nm != 'ent_unserialise' and len(args) == 2):
+            raise TranslateError(f'{nm} signature changed: {args}')
+        out[nm] = _Skeleton(fn, args[fi], args[di]).run()
+    return out
 
 
 def _self_attr(node: ast.AST, attr: str) -> bool:
@@ -566,6 +724,11 @@ def translate() -> tuple[str, dict]:
         f'Definition string_sep : N := {ord(db["consts"]["STRING_SEP"])}%N.',
         f'Definition bin_format_version : N := {db["consts"]["BIN_FORMAT_VERSION"]}%N.',
         'Definition struct_formats : list (string * string) := [' + '; '.join(f'("{k}", "{v}")' for k, v in db['structs'].items()) + '].',
+        '(* I/O skeletons of the record (un)serialisers: primitive reads/writes in program order with their loops/branches *)',
+        'Definition bin_layouts : list (string * list string) := [' + '; '.join(
+            '("%s", [%s])' % (fn, '; '.join('"%s"' % e.replace('"', '""') for e in evs)) for fn, evs in db['layouts'].items()) + '].',
+        f'Definition bin_list_type : string := "{db["special_types"]["list"]}".',
+        f'Definition bin_choices_type : string := "{db["special_types"]["choices"]}".',
         '(* EngineDB._parse_block: bases resolved through self.get_ent (true) or by a look-up in self.ent_map (false); *)',
         '(* the block is marked as decoded before the bases loop *)',
         f'Definition lazy_via_get_ent : bool := {_b(db["lazy"]["via_get_ent"])}.',
